@@ -26,12 +26,13 @@ import common as C
 import pyexpr as P
 
 MANIFEST = {
-    "text": "spiral: FULL (every emitted point lies in the requested rectangle, in the sheared frame the code uses for "
-    "tilt, for ALL candidate lists and all rational parameters with dr_aspect > 0). spiral_fermat: PARTIAL -- proved for "
-    "dr_aspect >= 1 (dr_y None or dr_y >= dr); for dr_y < dr the code's test lets points out in y (open finding, "
-    "counterexample theorem). spiral_square_pattern: FULL for all x_num, y_num >= 2 -- the produced index list maps to a "
-    "permutation of the x_num x y_num grid (ring-by-ring proof, no enumeration), every physical coordinate is the "
-    "linspace point of its grid index; sizes 1 raise ZeroDivisionError (modelled), sizes <= 0 are outside the property.",
+    "text": "FULL. spiral and spiral_fermat: every emitted point lies in the requested rectangle (|y - y_start| <= y_range/2 and "
+    "|x'| <= x_range/2 in the sheared frame the tilt defines), for ALL candidate lists, all tilts and all rational parameters "
+    "with dr, dr_y > 0 -- theorem over the bounds test / half ranges / dr_aspect / emitted point re-extracted from the source. "
+    "spiral_square_pattern: for ALL x_num, y_num >= 2 the produced sequence, read as grid indices, is a permutation of the "
+    "x_num x y_num grid (every grid point exactly once; ring-by-ring proof over the extracted guards and range() bounds, no "
+    "enumeration of sizes) and every physical coordinate is the linspace point of its grid index. Size 1 raises "
+    "ZeroDivisionError (modelled), sizes <= 0 are outside the property.",
     "note": "Trusted: Lean kernel; the C27 extractor (AST -> Lean for arithmetic/abs/comparison expressions, shape checks of "
     "the three functions); exact rationals for IEEE doubles (cos/sin values are arbitrary candidates, float rounding is "
     "covered only by the correspondence run with 1e-9 tolerance, boundary candidates counted separately); cycler "
@@ -45,7 +46,11 @@ ASSUMPTIONS = [
     "floats are modelled by exact rationals; candidates (radius*cos, radius*sin*dr_aspect) are arbitrary rationals",
     "dr > 0, dr_y > 0 (dr_aspect > 0), tilt_tan != 0 (tilt != -pi/2 exactly), no NaN/inf inputs",
     "tilted rectangle = the sheared frame the code tests in: x' = dx - (dy/dr_aspect)/tan(tilt + pi/2) = dx + (dy/dr_aspect)*tan(tilt)",
-    "spiral_square_pattern: x_num, y_num are Python ints >= 2 (1 raises ZeroDivisionError; <= 0 is not a grid)",
+    "spiral_square_pattern: x_num, y_num are Python ints >= 2; inputs the function rejects or that are not a grid are outside the "
+    "domain: x_num == 1 or y_num == 1 raises ZeroDivisionError, sizes <= 0 return the single first point (model and implementation "
+    "are still compared there, the oracle is not evaluated)",
+    "spiral / spiral_fermat raise StopIteration (cycler `+=` on an empty cycler) when no candidate passes the test: no points, "
+    "nothing to check (the model reports the same)",
 ]
 TRUSTED = ["harness/props/C27.py translation of arithmetic/abs/comparison expressions and its statement-shape checks"]
 
@@ -213,8 +218,8 @@ def _extract_spiral_like(tree, fname, facts):
     hy = rat(top["half_y"], {"y_range": "y_range", "dr_aspect": "dr_aspect"})
     tt = top["tilt_tan"]
     # tilt_tan = np.tan(tilt + np.pi / 2.0): recorded as a fact (the harness oracle uses tan(tilt) independently)
-    if not (_is_call(tt, "np.tan", 1)):
-        raise Unx(f"{fname}: tilt_tan is not np.tan(...)")
+    if ast.unparse(tt) != "np.tan(tilt + np.pi / 2.0)":  # lean_req_spiral computes the same float for the model
+        raise Unx(f"{fname}: tilt_tan is not np.tan(tilt + np.pi / 2.0)")
     facts[f"{fname}.tilt_tan"] = ast.unparse(tt)
     # each of these names is assigned exactly once in the function
     assigned = _assigned_names(fn)
@@ -469,3 +474,452 @@ def extract(ctx):
     extract_A(tree, facts)
     extract_B(tree, facts)
     return facts
+
+
+# ============================================================================= implementation side
+
+
+class _Motor:
+    def __init__(self, name):
+        self.name = name
+
+    def __repr__(self):
+        return f"Motor({self.name})"
+
+
+MX, MY = _Motor("mx"), _Motor("my")
+
+
+def _fr(x) -> Fraction:
+    return x if isinstance(x, Fraction) else Fraction(x)
+
+
+def _rs(q) -> str:
+    q = _fr(q)
+    return f"{q.numerator}/{q.denominator}"
+
+
+def _pts_of(cyc):
+    d = cyc.by_key()
+    return list(zip(d[MX], d[MY]))
+
+
+# ----------------------------------------------------------------------------- part A
+
+
+def spiral_args(case):
+    last = case["nth"] if case["kind"] == "spiral" else case["factor"]
+    return (MX, MY, case["x_start"], case["y_start"], case["x_range"], case["y_range"], case["dr"], last)
+
+
+def run_spiral_impl(case):
+    import numpy as np
+
+    import bluesky.plan_patterns as pp
+
+    f = pp.spiral if case["kind"] == "spiral" else pp.spiral_fermat
+    with warnings.catch_warnings(), np.errstate(all="ignore"):
+        warnings.simplefilter("ignore")
+        try:
+            cyc = f(*spiral_args(case), dr_y=case["dr_y"], tilt=case["tilt"])
+        except StopIteration:  # cycler `+=` on an empty cycler: no candidate passed the test
+            return {"error": "StopIteration"}
+        except Exception as e:  # noqa: BLE001
+            return {"error": type(e).__name__}
+    return {"points": [(float(x), float(y)) for x, y in _pts_of(cyc)]}
+
+
+def replica_candidates(case):
+    """The candidate sequence (x, y) -- same float operations as the loops of spiral / spiral_fermat.  Only used to
+    give the model the rejected candidates too; if the implementation's output is not a subsequence of it the
+    comparison falls back to feeding the emitted points back as candidates (see run)."""
+    import numpy as np
+
+    dr, dr_y, x_range, y_range = case["dr"], case["dr_y"], case["x_range"], case["y_range"]
+    dr_aspect = 1 if dr_y is None else dr_y / dr
+    half_x = x_range / 2
+    half_y = y_range / (2 * dr_aspect)
+    out = []
+    with warnings.catch_warnings(), np.errstate(all="ignore"):
+        warnings.simplefilter("ignore")
+        if case["kind"] == "spiral":
+            nth = case["nth"]
+            r_max = np.sqrt(half_x**2 + half_y**2)
+            num_ring = 1 + int(r_max / dr)
+            for i_ring in range(1, num_ring + 2):
+                radius = i_ring * dr
+                angle_step = 2.0 * np.pi / (i_ring * nth)
+                for i_angle in range(int(i_ring * nth)):
+                    angle = i_angle * angle_step
+                    out.append((float(radius * np.cos(angle)), float(radius * np.sin(angle) * dr_aspect)))
+        else:
+            factor = case["factor"]
+            phi = 137.508 * np.pi / 180.0
+            diag = np.sqrt(half_x**2 + half_y**2)
+            num_rings = int((1.5 * diag / (dr / factor)) ** 2)
+            for i_ring in range(1, num_rings):
+                radius = np.sqrt(i_ring) * dr / factor
+                angle = phi * i_ring
+                out.append((float(radius * np.cos(angle)), float(radius * np.sin(angle) * dr_aspect)))
+    return out
+
+
+def _geom(case):
+    dr_aspect = 1.0 if case["dr_y"] is None else case["dr_y"] / case["dr"]
+    tan_t = math.tan(case["tilt"])
+    tol_x = 1e-9 * (abs(case["x_range"]) + abs(case["y_range"] / dr_aspect * tan_t)) + 64 * 2.3e-16 * (abs(case["x_start"]) + abs(case["y_start"] * tan_t / dr_aspect))
+    tol_y = 1e-9 * abs(case["y_range"]) + 64 * 2.3e-16 * abs(case["y_start"])
+    return dr_aspect, tan_t, tol_x, tol_y
+
+
+def _aspect_class(case):
+    if case["dr_y"] is None:
+        return "dr_y-none"
+    return "dr_y-lt-dr" if case["dr_y"] < case["dr"] else "dr_y-ge-dr"
+
+
+def oracle_spiral(case, obs):
+    """The property on the implementation's points: inside the documented rectangle.  The tilted frame is written
+    independently of the code: x' = dx + (dy/dr_aspect)*tan(tilt).  -> (violations, n_boundary)"""
+    if "points" not in obs:
+        return [], 0
+    a, tan_t, tol_x, tol_y = _geom(case)
+    hx, hy = case["x_range"] / 2, case["y_range"] / 2
+    bad, nb = [], 0
+    for i, (px, py) in enumerate(obs["points"]):
+        dx, dy = px - case["x_start"], py - case["y_start"]
+        fx = dx + (dy / a) * tan_t
+        ex, ey = abs(fx) - hx, abs(dy) - hy
+        if abs(ex) <= tol_x or abs(ey) <= tol_y:
+            nb += 1
+        if ey > tol_y:
+            bad.append((f"{'spiral_fermat' if case['kind'] == 'fermat' else 'spiral'}:y-out-of-range:{_aspect_class(case)}", f"point #{i} ({px!r}, {py!r}): |y - y_start| = {abs(dy)!r} > y_range/2 = {hy!r}"))
+            break
+        if ex > tol_x:
+            bad.append((f"{'spiral_fermat' if case['kind'] == 'fermat' else 'spiral'}:x-out-of-range:{'tilted' if case['tilt'] else 'untilted'}:{_aspect_class(case)}", f"point #{i} ({px!r}, {py!r}): |x'| = {abs(fx)!r} > x_range/2 = {hx!r} (x' = dx + (dy/dr_aspect)*tan(tilt))"))
+            break
+    return bad, nb
+
+
+def lean_req_spiral(case, cands):
+    import numpy as np
+
+    with np.errstate(all="ignore"):
+        tilt_tan = float(np.tan(case["tilt"] + np.pi / 2.0))
+    req = {"kind": case["kind"], "x_start": _rs(case["x_start"]), "y_start": _rs(case["y_start"]), "x_range": _rs(case["x_range"]), "y_range": _rs(case["y_range"]), "dr": _rs(case["dr"]), "tilt_tan": _rs(tilt_tan), "cands": [[_rs(x), _rs(y)] for x, y in cands]}
+    if case["dr_y"] is not None:
+        req["dr_y"] = _rs(case["dr_y"])
+    return req
+
+
+def near_boundary(case, c):
+    """candidate within tolerance of one of the two edges of the test (float noise decides it)"""
+    import numpy as np
+
+    a, _, tol_x, tol_y = _geom(case)
+    with np.errstate(all="ignore"):
+        tt = float(np.tan(case["tilt"] + np.pi / 2.0))
+    u = c[1] / a
+    fx = c[0] - u / tt
+    return abs(abs(fx) - case["x_range"] / 2) <= tol_x or abs(abs(u) - case["y_range"] / (2 * a)) * a <= tol_y
+
+
+def match_subsequence(case, cands, pts):
+    """Which candidates did the implementation emit?  -> list of indices, or None when its output is not a
+    subsequence of the replica candidates (candidate generation drifted)."""
+    acc, j = [], 0
+    xs, ys = case["x_start"], case["y_start"]
+    for i, (cx, cy) in enumerate(cands):
+        if j < len(pts):
+            ex, ey = xs + cx, ys + cy
+            if abs(pts[j][0] - ex) <= 1e-12 * (1 + abs(ex)) and abs(pts[j][1] - ey) <= 1e-12 * (1 + abs(ey)):
+                acc.append(i)
+                j += 1
+    return acc if j == len(pts) else None
+
+
+def gen_spiral_case(rng, kind=None):
+    kind = kind or rng.choice(["spiral", "fermat"])
+    xr = rng.choice([1.0, 2.0, 0.3, round(rng.uniform(0.2, 5), 3)])
+    yr = rng.choice([1.0, 2.0, 0.3, xr, round(rng.uniform(0.2, 5), 3)])
+    xs = rng.choice([0.0, 0.0, 0.5, -0.5, 100.0, round(rng.uniform(-10, 10), 3)])
+    ys = rng.choice([0.0, 0.0, 0.5, -3.25, round(rng.uniform(-10, 10), 3)])
+    ratio = rng.choice([None, None, None, 0.5, 2.0, 0.25, 1.0, 4.0, round(rng.uniform(0.3, 3), 3)])
+    a = 1.0 if ratio is None else ratio
+    r_max = math.hypot(xr / 2, yr / (2 * a))
+    rings = rng.choice([1.5, 2.5, 4.0, 6.0, round(rng.uniform(1.2, 9), 2)])
+    dr = r_max / rings
+    tilt = rng.choice([0.0, 0.0, 0.0, 0.1, -0.3, 0.5, 1.0, -1.0, round(rng.uniform(-1.2, 1.2), 3)])
+    case = {"kind": kind, "x_start": xs, "y_start": ys, "x_range": xr, "y_range": yr, "dr": dr, "dr_y": None if ratio is None else dr * ratio, "tilt": tilt}
+    if kind == "spiral":
+        case["nth"] = rng.choice([1, 2, 3, 5, 8, 2.5, round(rng.uniform(1, 8), 2)])
+    else:
+        case["factor"] = rng.choice([1, 2, 1.0, 1.5, round(rng.uniform(0.8, 1.0 + 9 / rings), 2)])
+    return case
+
+
+def small_spiral_cases():
+    for kind in ("spiral", "fermat"):
+        for ratio in (None, 0.5, 2.0):
+            for tilt in (0.0, 0.3, -0.7):
+                for last in (1, 3):
+                    for xr, yr in ((1.0, 1.0), (2.0, 1.0)):
+                        dr = 0.25
+                        case = {"kind": kind, "x_start": 0.0, "y_start": 0.0, "x_range": xr, "y_range": yr, "dr": dr, "dr_y": None if ratio is None else dr * ratio, "tilt": tilt}
+                        case["nth" if kind == "spiral" else "factor"] = last
+                        yield case
+    # inputs for which no candidate passes (the function then raises StopIteration from cycler)
+    yield {"kind": "spiral", "x_start": 0.0, "y_start": 0.0, "x_range": -1.0, "y_range": 1.0, "dr": 0.25, "dr_y": None, "tilt": 0.0, "nth": 2}
+    yield {"kind": "fermat", "x_start": 0.0, "y_start": 0.0, "x_range": 1.0, "y_range": -1.0, "dr": 0.25, "dr_y": None, "tilt": 0.0, "factor": 1}
+    yield {"kind": "fermat", "x_start": 0.0, "y_start": 0.0, "x_range": 1.0, "y_range": 1.0, "dr": 5.0, "dr_y": None, "tilt": 0.0, "factor": 1}
+
+
+# ----------------------------------------------------------------------------- part B
+
+
+def square_inputs(case):
+    """exact mode: Fractions with a dyadic step, so that every coordinate (also the float half-offset) is exact;
+    float mode: ordinary floats."""
+    a, b = case["x_num"], case["y_num"]
+    if case["mode"] == "exact":
+        sx, sy = Fraction(case["step_x"]), Fraction(case["step_y"])
+        return Fraction(case["xc"]), Fraction(case["yc"]), sx * (a - 1), sy * (b - 1)
+    return float(case["xc"]), float(case["yc"]), float(case["xr"]), float(case["yr"])
+
+
+def run_square_impl(case):
+    import bluesky.plan_patterns as pp
+
+    xc, yc, xr, yr = square_inputs(case)
+    try:
+        cyc = pp.spiral_square_pattern(MX, MY, xc, yc, xr, yr, case["x_num"], case["y_num"])
+    except Exception as e:  # noqa: BLE001
+        return {"error": type(e).__name__}
+    pts = _pts_of(cyc)
+    if case["mode"] == "exact":
+        return {"points": [[_rs(x), _rs(y)] for x, y in pts]}
+    return {"points": [[float(x), float(y)] for x, y in pts]}
+
+
+def square_grid_indices(case, obs):
+    """(k, l, exact?) of every produced point w.r.t. the documented grid  x_center - x_range/2 + k*x_range/(x_num-1)"""
+    a, b = case["x_num"], case["y_num"]
+    xc, yc, xr, yr = square_inputs(case)
+    out = []
+    if case["mode"] == "exact":
+        for sx, sy in obs["points"]:
+            x, y = Fraction(sx), Fraction(sy)
+            k = (x - (xc - xr / 2)) / (xr / (a - 1))
+            l = (y - (yc - yr / 2)) / (yr / (b - 1))
+            ok = k.denominator == 1 and l.denominator == 1
+            out.append((int(k) if k.denominator == 1 else float(k), int(l) if l.denominator == 1 else float(l), ok))
+    else:
+        for x, y in obs["points"]:
+            kf = (x - (xc - xr / 2)) / (xr / (a - 1))
+            lf = (y - (yc - yr / 2)) / (yr / (b - 1))
+            k, l = round(kf), round(lf)
+            ok = abs(kf - k) <= 1e-9 * (a - 1) + 1e-9 and abs(lf - l) <= 1e-9 * (b - 1) + 1e-9
+            out.append((k, l, ok))
+    return out
+
+
+def _parity(case):
+    return f"{'even' if case['x_num'] % 2 == 0 else 'odd'}-x-{'even' if case['y_num'] % 2 == 0 else 'odd'}-y"
+
+
+def oracle_square(case, obs):
+    """every point of the x_num x y_num grid exactly once (only for sizes the function accepts, x_num, y_num >= 2)"""
+    a, b = case["x_num"], case["y_num"]
+    if "points" not in obs or a < 2 or b < 2:
+        return []
+    g = square_grid_indices(case, obs)
+    par = _parity(case)
+    off = [(i, k, l) for i, (k, l, ok) in enumerate(g) if not ok or not (0 <= k < a and 0 <= l < b)]
+    if off:
+        i, k, l = off[0]
+        return [(f"square:off-grid:{par}", f"{a}x{b}: point #{i} {obs['points'][i]} is not a grid point (grid index {k}, {l})")]
+    seen = {}
+    for i, (k, l, _) in enumerate(g):
+        if (k, l) in seen:
+            return [(f"square:duplicate:{par}", f"{a}x{b}: grid point ({k}, {l}) produced twice (#{seen[(k, l)]} and #{i})")]
+        seen[(k, l)] = i
+    if len(seen) != a * b:
+        miss = sorted({(k, l) for k in range(a) for l in range(b)} - set(seen))
+        return [(f"square:missing:{par}", f"{a}x{b}: {len(miss)} grid point(s) never produced, first {miss[0]}")]
+    return []
+
+
+def gen_square_case(rng, a, b, mode=None):
+    mode = mode or "exact"
+    if mode == "exact":
+        return {"kind": "square", "mode": "exact", "x_num": a, "y_num": b, "xc": rng.choice([0, 0, 1, -3, 10]), "yc": rng.choice([0, 0, -1, 7]), "step_x": rng.choice(["1", "1", "2", "1/2", "1/4", "3"]), "step_y": rng.choice(["1", "1", "2", "1/2", "5"])}
+    return {"kind": "square", "mode": "float", "x_num": a, "y_num": b, "xc": round(rng.uniform(-10, 10), 3), "yc": round(rng.uniform(-10, 10), 3), "xr": rng.choice([1.0, 0.3, round(rng.uniform(0.1, 20), 3)]), "yr": rng.choice([1.0, 0.7, round(rng.uniform(0.1, 20), 3)])}
+
+
+def lean_req_square(case):
+    req = {"kind": "square", "x_num": case["x_num"], "y_num": case["y_num"]}
+    if case["mode"] == "exact" and case["x_num"] >= 2 and case["y_num"] >= 2 and case["x_num"] * case["y_num"] <= 700:
+        xc, yc, xr, yr = square_inputs(case)
+        req.update({"coords": True, "xc": _rs(xc), "yc": _rs(yc), "xr": _rs(xr), "yr": _rs(yr)})
+    return req
+
+
+# ============================================================================= the run
+
+
+def _cases(ctx):
+    corpus = C.VERIF / "corpus" / "C27"
+    if corpus.exists():
+        for f in sorted(corpus.glob("*.json")):
+            yield json.loads(f.read_text())["case"]
+    rng = ctx.rng
+    big = ctx.tier == "thorough" or ctx.deep
+    # part B: every size 1..N x 1..N (exact Fractions), then sizes the function does not accept, then floats
+    n = 40 if big else 25
+    for a in range(1, n + 1):
+        for b in range(1, n + 1):
+            yield gen_square_case(rng, a, b)
+    for a in (-2, -1, 0):
+        for b in (-1, 0, 1, 2, 3, 4):
+            yield gen_square_case(rng, a, b)
+            yield gen_square_case(rng, b, a)
+    for _ in range(ctx.budget(120, 1500)):
+        yield gen_square_case(rng, rng.randint(2, 30 if not big else 60), rng.randint(2, 30 if not big else 60), rng.choice(["float", "float", "exact"]))
+    # part A
+    yield from small_spiral_cases()
+    for _ in range(ctx.budget(260, 6000)):
+        yield gen_spiral_case(rng)
+
+
+def _key(case):
+    if case["kind"] == "square":
+        return f"square:{case['mode']}:{_parity(case)}" if min(case["x_num"], case["y_num"]) >= 2 else "square:rejected-or-degenerate-size"
+    return f"{case['kind']}:{_aspect_class(case)}:{'tilted' if case['tilt'] else 'untilted'}"
+
+
+def _short(obs):
+    if isinstance(obs, dict):
+        return {k: (v[:6] + ["..."] if isinstance(v, list) and len(v) > 6 else v) for k, v in obs.items()}
+    return obs
+
+
+def run(ctx, model=True):
+    res = C.Result(
+        rule="cases = corpus + spiral_square_pattern on EVERY size 1..25 x 1..25 (thorough 1..40) with exact Fraction inputs + "
+        "sizes <= 1 + random float/exact sizes up to 30 (60) + spiral/spiral_fermat on a small exhaustive table (dr_y, tilt, nth/factor, "
+        "ranges) and random parameters (tilt in [-1.2, 1.2], dr_y/dr in [0.25, 4]); non-trivial = square: both sizes >= 2 and not both "
+        "equal parity-trivial 2x2, spiral: at least one candidate accepted and one rejected"
+    )
+    cases, obss, reqs, aux = [], [], [], []
+    n_boundary = 0
+    for case in _cases(ctx):
+        if case["kind"] == "square":
+            obs = run_square_impl(case)
+            bad = oracle_square(case, obs)
+            req = lean_req_square(case)
+            ax = None
+            nontrivial = "points" in obs and min(case["x_num"], case["y_num"]) >= 2 and (case["x_num"], case["y_num"]) != (2, 2)
+        else:
+            obs = run_spiral_impl(case)
+            bad, nb = oracle_spiral(case, obs)
+            n_boundary += nb
+            cands = replica_candidates(case)
+            req = lean_req_spiral(case, cands)
+            ax = cands
+            nontrivial = "points" in obs and 0 < len(obs["points"]) < len(cands)
+        cases.append(case)
+        obss.append(obs)
+        reqs.append(req)
+        aux.append(ax)
+        res.seen(case, nontrivial)
+        res.count(_key(case))
+        res.count("impl:" + ("ok" if "points" in obs else obs["error"]))
+        for sig, what in bad:
+            res.violations.append(C.Violation(sig, what, case))
+    res.count("spiral-points-within-1e-9-of-the-boundary", n_boundary)
+    if not model:
+        res.samples.append({"case": cases[-1], "impl": _short(obss[-1])})
+        return res
+    replies = [json.loads(r) for r in C.lean_batch(DRIVER, [json.dumps(r) for r in reqs])]
+    drift = []
+    for i, (case, obs, rep, ax) in enumerate(zip(cases, obss, replies, aux)):
+        if case["kind"] == "square":
+            d = compare_square(case, obs, rep)
+            if d:
+                res.disagreements.append({"case": case, "why": d, "model": _short(rep), "impl": _short(obs)})
+        else:
+            d = compare_spiral(case, obs, rep, ax, res)
+            if d == "drift":
+                drift.append(i)
+            elif d:
+                res.disagreements.append({"case": case, "why": d, "model": _short(rep), "impl": _short(obs)})
+    if drift:
+        # the implementation's candidates are not the replica's: feed what it emitted back as candidates --
+        # the model (generated bounds test, exact arithmetic) must accept every emitted point
+        res.notes.append(f"{len(drift)} spiral cases: output is not a subsequence of the harness' replica candidates; only the emitted points were checked against the model")
+        res.count("spiral:candidate-drift", len(drift))
+        fb = []
+        for i in drift:
+            case = cases[i]
+            fb.append([(Fraction(px) - Fraction(case["x_start"]), Fraction(py) - Fraction(case["y_start"])) for px, py in obss[i]["points"]])
+        reps = [json.loads(r) for r in C.lean_batch(DRIVER, [json.dumps(lean_req_spiral(cases[i], c)) for i, c in zip(drift, fb)])]
+        for i, c, rep in zip(drift, fb, reps):
+            rejected = [j for j in range(len(c)) if j not in set(rep.get("accepted", [])) and not near_boundary(cases[i], (float(c[j][0]), float(c[j][1])))]
+            if rejected:
+                res.disagreements.append({"case": cases[i], "why": f"the model's bounds test rejects emitted point #{rejected[0]} {obss[i]['points'][rejected[0]]}", "impl": _short(obss[i])})
+    for i in (0, len(cases) // 3, len(cases) - 1):
+        res.samples.append({"case": cases[i], "impl": _short(obss[i]), "model": _short(replies[i])})
+    return res
+
+
+def compare_square(case, obs, rep):
+    if "error" in obs or "error" in rep:
+        return None if obs.get("error") == rep.get("error") else f"impl {obs.get('error', 'ok')} vs model {rep.get('error', 'ok')}"
+    if len(obs["points"]) != len(rep["idx"]):
+        return f"impl produced {len(obs['points'])} points, model {len(rep['idx'])}"
+    if case["x_num"] >= 2 and case["y_num"] >= 2:
+        g = square_grid_indices(case, obs)
+        for i, ((k, l, ok), m) in enumerate(zip(g, rep["grid"])):
+            if not ok or [k, l] != m:
+                return f"point #{i}: impl grid index ({k}, {l}) vs model {m}"
+    if rep.get("coords"):
+        for i, (p, q) in enumerate(zip(obs["points"], rep["coords"])):
+            if [Fraction(p[0]), Fraction(p[1])] != [Fraction(q[0]), Fraction(q[1])]:
+                return f"point #{i}: impl coordinates {p} vs model {q}"
+    return None
+
+
+def compare_spiral(case, obs, rep, cands, res):
+    if "error" in obs:
+        if obs["error"] == "StopIteration":
+            return None if rep.get("error") == "StopIteration" or all(near_boundary(case, cands[i]) for i in rep.get("accepted", [])) else "impl emitted nothing (StopIteration), model accepts candidates"
+        return f"impl raised {obs['error']}"
+    acc_impl = match_subsequence(case, cands, obs["points"])
+    if acc_impl is None:
+        return "drift"
+    acc_model = set(rep.get("accepted", []))
+    diff = sorted(set(acc_impl) ^ acc_model)
+    hard = [i for i in diff if not near_boundary(case, cands[i])]
+    res.count("spiral-candidates-decided-by-float-noise", len(diff) - len(hard))
+    if hard:
+        i = hard[0]
+        return f"candidate #{i} {cands[i]}: impl {'emits' if i in set(acc_impl) else 'rejects'}, model {'accepts' if i in acc_model else 'rejects'}"
+    return None
+
+
+def run_impl_only(ctx):
+    return run(ctx, model=False)
+
+
+def replay(ctx, data):
+    res = C.Result()
+    case = data.get("case")
+    if not case:
+        return res
+    if case["kind"] == "square":
+        bad = oracle_square(case, run_square_impl(case))
+    else:
+        bad, _ = oracle_spiral(case, run_spiral_impl(case))
+    for sig, what in bad:
+        res.violations.append(C.Violation(sig, what, case))
+    return res
